@@ -82,6 +82,104 @@ class Graph:
         return node in r
 
 
+class ArgGraph(Graph):
+    """Same queries, answered on the abstract reachability graph of the exploration (one node per program
+    node AND state that executed it) and projected back to program nodes. `succ`/`pred`/`kinds` stay the
+    program-level union graph. A path exists here only if one explored state sequence follows it, so a
+    `match` on the result of an inlined helper does not connect the helper's Err exit with the caller's Ok arm."""
+
+    def __init__(self, edges, nodes, arg_proj, arg_edges):
+        Graph.__init__(self, edges, nodes)
+        self.proj = arg_proj
+        self.asucc = [[] for _ in arg_proj]
+        for (a, b) in arg_edges:
+            self.asucc[a].append(b)
+        self.inst = {}
+        for i, n in enumerate(arg_proj):
+            self.inst.setdefault(n, []).append(i)
+        self.edge_inst = {}
+        for (a, b) in arg_edges:
+            self.edge_inst.setdefault((arg_proj[a], arg_proj[b]), []).append(b)
+
+    def _search(self, srcs, avoid_nodes, avoid_edges, stop_at, src_edges=()):
+        proj = self.proj
+        avoid_nodes = set(avoid_nodes)
+        avoid_edges = set(avoid_edges)
+        stop_at = set(stop_at)
+        seen = set()
+        dq = deque()
+        for s in srcs:
+            if s in avoid_nodes:
+                continue
+            for i in self.inst.get(s, ()):
+                if i not in seen:
+                    seen.add(i)
+                    dq.append(i)
+        for e in src_edges:
+            if e in avoid_edges or e[1] in avoid_nodes:
+                continue
+            for i in self.edge_inst.get(e, ()):
+                if i not in seen:
+                    seen.add(i)
+                    dq.append(i)
+        prev = {}
+        while dq:
+            x = dq.popleft()
+            px = proj[x]
+            if px in stop_at:
+                continue
+            for y in self.asucc[x]:
+                if y in seen:
+                    continue
+                py = proj[y]
+                if py in avoid_nodes or (px, py) in avoid_edges:
+                    continue
+                seen.add(y)
+                prev[y] = x
+                dq.append(y)
+        return seen, prev
+
+    def reachable(self, srcs, avoid_nodes=(), avoid_edges=(), stop_at=(), src_edges=()):
+        seen, _ = self._search(srcs, avoid_nodes, avoid_edges, stop_at, src_edges)
+        proj = self.proj
+        return set(proj[i] for i in seen)
+
+    def path(self, src, dst_set, avoid_nodes=(), avoid_edges=()):
+        dst_set = set(dst_set)
+        seen, prev = self._search([src], avoid_nodes, avoid_edges, ())
+        proj = self.proj
+        best = None
+        for i in seen:
+            if proj[i] in dst_set and proj[i] != src:
+                out = [i]
+                while out[-1] in prev:
+                    out.append(prev[out[-1]])
+                if best is None or len(out) < len(best):
+                    best = out
+        if best is None:
+            return None
+        return [proj[i] for i in best[::-1]]
+
+    def on_cycle_avoiding(self, node, avoid_nodes=(), avoid_edges=()):
+        av_n = set(avoid_nodes)
+        av_e = set(avoid_edges)
+        proj = self.proj
+        for i in self.inst.get(node, ()):
+            starts = [y for y in self.asucc[i] if proj[y] not in av_n and (node, proj[y]) not in av_e]
+            seen = set(starts)
+            dq = deque(starts)
+            while dq:
+                x = dq.popleft()
+                if proj[x] == node:
+                    return True
+                for y in self.asucc[x]:
+                    if y in seen or proj[y] in av_n or (proj[x], proj[y]) in av_e:
+                        continue
+                    seen.add(y)
+                    dq.append(y)
+        return False
+
+
 def node_str(prog, n):
     fid, bb = n
     last = fid[-1] if fid else None
